@@ -87,7 +87,8 @@ static cbor_item_t* mk_indef_string(bool text, unsigned nchunks) {
   return s;
 }
 static cbor_item_t* mk_float(unsigned w, unsigned vi) {
-  static const float H[] = {0.0f, -0.0f, 1.5f, 65504.0f, 5.960464477539063e-8f};
+  /* 7..11: values no half represents (too large, inexact, too small): constructible; C07/C11 speak of every item, C03 does not */
+  static const float H[] = {0.0f, -0.0f, 1.5f, 65504.0f, 5.960464477539063e-8f, 0, 0, 65536.0f, -100000.0f, 1.1f, 1.0e-10f, 3.0e+38f};
   static const float S[] = {0.0f, 100000.0f, 3.4028234663852886e+38f, -1.0e-40f, 1.5f};
   static const double D[] = {0.0, 1.1, -4.1, 1.0e+300, 4.9e-324};
   if (vi == 5) return chk(w == 0 ? cbor_build_float2(NAN) : w == 1 ? cbor_build_float4(-NAN) : cbor_build_float8(NAN));
@@ -155,7 +156,7 @@ static cbor_item_t* gen_leaf(int g) {
     case 3: return mk_text(pick(10));
     case 4: return mk_indef_string(false, pick(3));
     case 5: return mk_indef_string(true, pick(3));
-    case 6: { unsigned w = pick(3); return mk_float(w, pick(7)); }
+    case 6: { unsigned w = pick(3); return mk_float(w, pick(w == 0 ? 12 : 7)); }
     default: return mk_simple(pick(9));
   }
 }
